@@ -21,6 +21,7 @@
 
 import Proofs.ConvData
 import Proofs.ConvLife
+import Proofs.KeyFile
 namespace Otr.C13
 open Otr
 
@@ -43,5 +44,14 @@ theorem randomInto_run : type_of% @Otr.randomInto_run := @Otr.randomInto_run
 theorem generateInstanceTag_run : type_of% @Otr.generateInstanceTag_run := @Otr.generateInstanceTag_run
 
 theorem akeHasFinished_panic_iff : type_of% @Otr.akeHasFinished_panic_iff := @Otr.akeHasFinished_panic_iff
+
+/-! libotr key file / s-expression reader (Otr.Sexp, Otr.KeyFile; profile `keyfile`) -/
+theorem importKeys_total : type_of% @Otr.importKeys_total := @Otr.importKeys_total
+
+theorem read_total : type_of% @Otr.read_total := @Otr.read_total
+
+theorem readListItem_total : type_of% @Otr.readListItem_total := @Otr.readListItem_total
+
+theorem goodValue_readValue : type_of% @Otr.goodValue_readValue := @Otr.goodValue_readValue
 
 end Otr.C13
